@@ -11,6 +11,21 @@ CLAIMS = {
   "C01": ("proof", TECH,
           "Every factor-producing function (FermatFactor, FactorHighAndLowBitsEqual, CheckContinuedFraction, CheckFraction, Pollardpm1, CheckLowHammingWeight, FactorWithGuess, CheckSmallUpperDifferences) has a discharged postcondition 'recorded pair multiplies to n' (proper divisor where the code guards it); every util.AttachFactors call site of the 17 RSA Check methods carries discharged call-site obligations (same artifact, factors multiply to / divide the modulus) and 'attached implies positive entry'. BatchGCD is an assumed contract decided by the bounded tier; the CheckGCD proper-divisor clause is bounded only.",
           NOTE, "DESIGN.md 4/C01"),
+  "C03": ("exploration", TECH + " (glue deductive; remainder-tree induction bounded)",
+          "CheckGCD / CheckGCDN1 glue is discharged (key i flagged exactly when gcds[i] != 1 resp. >= bound, recorded {g, N//g} resp. {g}, aligned with artifacts); BatchGCD itself (product / remainder tree induction) is an assumed contract decided by the bounded tier: definition gcd(v_i, other * product of the other distinct values) for every batch size 0..40 (quick) / 0..130 (thorough), sharing patterns, duplicates, permutations.",
+          NOTE, "DESIGN.md 4/C03"),
+  "C04": ("proof", TECH,
+          "Clause 1 (Fermat factors exactly when (p+q)/2 - ceil(sqrt n) < max_steps) is discharged for all n, max_steps through the quantified loop invariant of FermatFactor. Clauses 2 and 3 (equal high/low bits, documented prime differences) are bounded stand-ins over seeded family members.",
+          NOTE, "DESIGN.md 4/C04"),
+  "C05": ("exploration", TECH + " (flag logic deductive; detection bounded, sampled)",
+          "Detection rests on LLL / best-first heuristics: seeded members of each documented family at the documented margins (bounded, sampled). Deductive part: the Check methods flag exactly when the callee reports (CheckContinuedFraction, Pollardpm1 gcd_bound gate, LowHammingWeight severity rule), search loops try candidates until the first success.",
+          NOTE, "DESIGN.md 4/C05"),
+  "C10": ("exploration", TECH + " (index mapping deductive; search completeness bounded)",
+          "BatchDL / BatchDLOfDifferences / ExtendedBatchDL completeness: exhaustive for all x, all list lengths and call histories on small prime-order curves, edge cases on named curves (bounded). Deductive part: CheckWeakECPrivateKey / CheckECKeySmallDifference flag key i exactly when search result i is not None (partition by curve preserves the index mapping).",
+          NOTE, "DESIGN.md 4/C10"),
+  "C11": ("exploration", TECH + " (parameters ground; arithmetic bounded)",
+          "Named-curve parameters: ground obligations (primality by BPSW+MR, non-singular, G on curve, n*G = infinity by an independent implementation, Hasse bound). Point operations incl. batched variants: exhaustive over whole small prime-order groups and edge operands on named curves against an independent textbook law (bounded).",
+          NOTE, "DESIGN.md 4/C11"),
   "C06": ("proof", TECH,
           "CheckSizes/CheckExponents/CheckROCA/CheckROCAVariant flag exactly their closed-form criterion (loop-body obligations over an arbitrary artifact); ROCAKeyDetector._HasDiscreteLog/IsWeak and ROCAKeyVariantDetector.IsWeak are proved against their definitions (39/48 primes, Euclidean witnesses). Denylist fingerprints, keypair table and EC criteria: see evidence (bounded / not yet under contract).",
           NOTE, "DESIGN.md 4/C06"),
@@ -20,6 +35,27 @@ CLAIMS = {
   "C16": ("proof", TECH,
           "util.GetTestResult/SetTestResult/GetAttachedInfo/AttachInfo/GetHighestSeverity are proved against their bodies over the protobuf view (frame + monotonicity + no duplicate names); BaseCheck._CreateTestResult and every RSA Check method: exactly one SetTestResult per artifact per call on that artifact's own test_info, named after the check, with the check's severity (documented LowHammingWeight exception), return value == OR of the results written.",
           NOTE, "DESIGN.md 4/C16"),
+  "C02": ("proof", TECH,
+          "Soundness glue of every EC/ECDSA check is discharged: _IssuerDLogs (every recorded index->d has a point under which the index is listed with d*G == point, for ARBITRARY guesses), BiasedBaseCheck.Check and CheckCr50U2f.Check (a signature is marked weak only on the branch where its index has a verified issuer discrete log; the attached DISCRETE_LOG is hex(d) with d*G == that signature's issuer point), CheckWeakECPrivateKey / CheckECKeySmallDifference (the value attached to key i is the search result for key i through the per-curve partition). The group arithmetic below (BatchMultiplyG, ExtendedBatchDL, BatchDLOfDifferences) is used through assumed contracts decided under C10/C11 and by the bounded tier.",
+          NOTE, "DESIGN.md 4/C02"),
+  "C12": ("proof", TECH,
+          "Insufficient-data guards and parameter ladders are discharged for all n: BlockFrequency (n<100; block size >= 20 and < 100 blocks), LongestRuns (n<128; M = 8/128/10^4 by NIST thresholds), BinaryMatrixRank (n < 38rc, incl. that the callee cannot raise), Universal (n<387840; largest admissible L, Q = 10*2^L), LinearComplexity, LargeBinaryMatrixRank (n<4096); SplitSequence length/range. Tables: ground obligations with exact rationals; integer statistics and invariances: bounded; floating-point p-value formulas: not decided by this family.",
+          NOTE + " Floats are not modelled: function tails after the guard prefix are abstracted (listed in evidence).", "DESIGN.md 4/C12"),
+  "C13": ("exploration", TECH + " (only util.CombinedPValue's control structure is deductive; the decision rule of TestStructure is a bounded stand-in)",
+          "TestStructure.Run/Failed decision rule: bounded exhaustive over scripted p-value sequences against an independent Fisher combination; util.CombinedPValue control structure (empty -> ValueError, singleton identity, a zero -> 0) proved. The two statistical sentences of the property are not decidable by contracts.",
+          NOTE, "DESIGN.md 4/C13"),
+  "C14": ("exploration", TECH + " (closed forms deductive; Berlekamp-Massey implementations bounded)",
+          "LfsrCount/LfsrLogProbability proved equal to the Rueppel closed form and consistent with each other for all n, m. The three linear-complexity implementations (pure Python, C++ with and without CLMUL compiled from the working tree) are a bounded stand-in: exhaustive over all short sequences against a brute-force shortest-LFSR oracle plus agreement on structured long sequences.",
+          NOTE + " No C verifier is installed; the C++ code is only exercised, not proved.", "DESIGN.md 4/C14"),
+  "C15": ("exploration", TECH + " (length/range contracts deductive; definitions bounded)",
+          "SplitSequence length and block range proved for all inputs; every bit-sequence primitive is checked exhaustively on all short strings and on both sides of each fast-path threshold against one-line definitions (bounded).",
+          NOTE, "DESIGN.md 4/C15"),
+  "C17": ("proof", TECH,
+          "Non-interference by loop cut: every per-artifact loop body of the individual checks is verified from an ARBITRARY state of all loop-carried variables (havoc at the cut) and writes only to that artifact's own test_info (call-site obligations `args[0] is key.test_info`), with closed-form verdicts proved functions of the artifact alone; joint checks: verdict i is tied to search result i through the order-preserving per-curve / per-issuer partition. Batch-size dependence of the EC table (finding F9) and cross-call caches: bounded tier.",
+          NOTE, "DESIGN.md 4/C17"),
+  "C20": ("proof", TECH,
+          "0 <= RandomBits(n) < 2^n is discharged for all n >= 1 and all seeds for the 13 generator bodies (bytes/bit-length theory), TruncLcgRand restricted to n % 8 == 0 with the complementary obligation listed as known finding F6; registry, determinism, java.util.Random and truncated-LCG streams: bounded.",
+          NOTE, "DESIGN.md 4/C20"),
   "C18": ("proof", TECH,
           "Implicit-exception obligations (ZeroDivisionError, IndexError, KeyError, TypeError on None, ValueError of isqrt/shift/to_bytes, invert of non-unit) and 'no unexpected raise' are discharged for every function under a total contract, under the property's well-formedness precondition (moduli >= 2^63).",
           NOTE + " Termination is not claimed except where a variant is listed.", "DESIGN.md 4/C18"),
